@@ -3,6 +3,7 @@
 package main
 
 import (
+	"runtime"
 	"bufio"
 	"bytes"
 	"encoding/json"
@@ -272,6 +273,17 @@ func cmdCheck(args []string) int {
 		pprof.StartCPUProfile(f)
 		defer pprof.StopCPUProfile()
 	}
+	if mp := os.Getenv("SYMGO_MEMPROFILE"); mp != "" {
+		defer func() {
+			f, _ := os.Create(mp)
+			pprof.WriteHeapProfile(f)
+			f.Close()
+			fmt.Fprintln(os.Stderr, "goroutines at exit:", runtime.NumGoroutine())
+			g, _ := os.Create(mp + ".goroutines")
+			pprof.Lookup("goroutine").WriteTo(g, 1)
+			g.Close()
+		}()
+	}
 	start := time.Now()
 	seed := 0
 	fmt.Sscan(os.Getenv("VERIF_SEED"), &seed)
@@ -386,6 +398,9 @@ func cmdCheck(args []string) int {
 			for _, m := range res.EngineMsgs {
 				fmt.Printf("  ENGINE: %s\n", m)
 			}
+		}
+		if os.Getenv("SYMGO_MEMPROFILE") != "" {
+			fmt.Fprintln(os.Stderr, "max work queue:", ex.MaxQueue)
 		}
 		if ex.Truncated > 0 || ex.PathCapHit {
 			broken = true
